@@ -53,7 +53,7 @@ def cases(tier, seed):
         pairs = [pairs[i] for i in sorted(idx)]
     for a, b in pairs:
         yield {"mesh": gen.random_mesh(rng, 40), "history": [a, b], "qseed": int(rng.integers(0, 10**6))}
-    n = 90 if tier == "quick" else 1500
+    n = 90 if tier == "quick" else 10000
     for i in range(n):
         L = int(rng.integers(1, 5))
         yield {"mesh": gen.random_mesh(rng, 60 if tier == "quick" else 250), "history": [int(x) for x in rng.integers(0, len(REQS), size=L)], "qseed": int(rng.integers(0, 10**6))}
